@@ -11,7 +11,10 @@ namespace c18 {
 // everything it observed.  `scale` = 0 quick, 1 thorough (longer bodies).
 typedef uint64_t (*WorkFn)(int scale);
 
-enum Kind { LIBTINS = 0, CANARY_RACY = 1, CANARY_GUARDED = 2, CANARY_LOCKED = 3 };
+// DESCENDANT: works on objects that the main thread derived (clone / copy / assignment / Packet copy / composition) from a common
+// ancestor before the threads start (harness/C18_descend.cpp).  Such a workload consumes its objects: it can run once per
+// setup_descendants() and never on two threads at a time.  CANARY_COPYSHARE: the racy canary of that class.
+enum Kind { LIBTINS = 0, CANARY_RACY = 1, CANARY_GUARDED = 2, CANARY_LOCKED = 3, DESCENDANT = 4, CANARY_COPYSHARE = 5 };
 
 struct Workload {
     const char* name;
@@ -22,9 +25,14 @@ struct Workload {
 extern const Workload kWorkloads[];
 extern const int kNumWorkloads;   // all entries; the LIBTINS ones come first
 extern const int kNumLibtins;     // number of LIBTINS entries
+extern const int kNumDescendant;  // number of DESCENDANT entries (they follow the LIBTINS ones; pairs are (2k, 2k+1) = threads A, B of one object set)
 
 // Registers the user allocators (EtherType 0x88b5 -> UserPDU<0>, IP protocol 253 -> UserPDU<1>): the
 // "user-registered allocator maps" of the property.  Called once from main() before any workload runs.
 void setup_registry();
+
+// (Re)builds the ancestors and every derived object of the DESCENDANT workloads and of the copy-sharing canary.  Main thread only,
+// while no other thread exists.  The trace binary calls it once before it forks anything; the tsan binary before every round.
+void setup_descendants();
 
 }  // namespace c18
